@@ -84,6 +84,15 @@ if os.path.exists(hh):
         hl.append(f"* **{i}** ({'outside the property' if scope else res}): {why}")
     t = t.replace('@HLEFT@', "\n".join(hl) if hl else '(none)')
     s = s.replace('### 16.7 Numbers', t + '### 16.7 Numbers')
+vv = f'{V}/notes/round_v_prose.md'
+if os.path.exists(vv):
+    t = open(vv).read()
+    n, sf = benign('v')
+    t = t.replace('@VFIRST@', str(sf)).replace('@VALARM@', str(n - sf))
+    for k in ('VSILENT', 'VLEFT'):
+        pth = f'{V}/notes/ph_{k}.txt'
+        t = t.replace('@' + k + '@', open(pth).read().strip() if os.path.exists(pth) else '(pending)')
+    s = s.replace('### 16.7 Numbers', t + '### 16.7 Numbers')
 d = open(f'{V}/DESIGN.md').read()
 i = d.find('\n## 16. ')
 if i >= 0:
